@@ -21,7 +21,7 @@
     digit), [pad32] = zeroPadBytes(_, 32), [caller_of sender contract] = the sender if present,
     else the contract.  [calls_of q] are the contract calls among the queue messages [q]. *)
 From Coq Require Import List ZArith Bool String.
-From Paloma Require Import Base.Corr Scheduler.Jobs Scheduler.JobsProofs.
+From Paloma Require Import Base.Corr Scheduler.Jobs Scheduler.JobsProofs Scheduler.StoreKeys.
 From Paloma Require Gen.C17.
 Import ListNotations.
 Open Scope Z_scope.
@@ -326,6 +326,28 @@ Proof.
   exact (conj eq_refl (conj eq_refl (conj eq_refl (conj eq_refl (conj eq_refl (conj eq_refl (conj eq_refl (conj eq_refl (conj eq_refl (conj eq_refl (conj eq_refl (conj eq_refl (conj eq_refl (conj eq_refl (conj eq_refl (conj eq_refl (conj eq_refl (conj eq_refl (conj eq_refl eq_refl))))))))))))))))))).
 Qed.
 Print Assumptions entry_points_are_of_current_source.
+
+(** The key space of job records is prefix-free against every other key family of the module's
+    store (generated table: the prefix of the jobs store, every other KeyPrefix literal of
+    x/scheduler and the id generator's key): for ALL ids and ALL key remainders, a job record's raw
+    key is not a key of another family, so no write of another family can replace or fake a job
+    record; job records of different ids have different keys; the criterion is exact (when it
+    fails the families do share a key -- e.g. a counter under "jobs-runs-" + id IS the record of job
+    "-runs-" + id); and the only store write of the keeper package is saveJob's. *)
+Theorem job_record_keys_prefix_free :
+  (forall p, In p Gen.C17.other_key_prefixes ->
+     forall id k : string, (Gen.C17.job_record_prefix ++ id)%string <> (p ++ k)%string) /\
+  (forall id1 id2 : string,
+     (Gen.C17.job_record_prefix ++ id1)%string = (Gen.C17.job_record_prefix ++ id2)%string -> id1 = id2) /\
+  (forall a b, prefix_disjoint a b = false -> exists x y, (a ++ x)%string = (b ++ y)%string) /\
+  Gen.C17.job_record_prefix = "jobs"%string /\
+  Gen.C17.store_write_sites =
+    ["saveJob: keeperutil.Save(k.jobsStore(ctx), k.cdc, []byte(job.GetID()), job)"]%string.
+Proof.
+  exact (conj StoreKeys.job_record_keys_prefix_free (conj StoreKeys.job_key_injective
+        (conj StoreKeys.prefix_disjoint_complete (conj eq_refl eq_refl)))).
+Qed.
+Print Assumptions job_record_keys_prefix_free.
 
 (** The model mirrors the source as it is now (translated on every check): pad size and append
     order of injectSenderIntoPayload, the order sender-then-contract of the suffix source, what
